@@ -307,7 +307,7 @@ class FFCXBackendAccess:
         if cellname not in ("interval", "triangle", "tetrahedron"):
             raise RuntimeError(f"Unhandled cell types {cellname}.")
 
-        table = L.Symbol(f"{cellname}_facet_orientation", dtype=L.DataType.INT)
+        table = L.Symbol(f"{cellname}_facet_orientation", dtype=L.DataType.REAL)
         facet = self.symbols.entity("facet", mt.restriction)
         return table[facet]
 
